@@ -41,7 +41,8 @@ def verus_version():
         return 'unknown'
 
 
-def generate(tag=''):
+def generate(tag=None):
+    tag = tag if tag is not None else os.environ.get('VERIF_GEN_TAG', '')
     out = os.path.join(VERIF, 'gen', 'lzma_rs_verus%s.rs' % tag)
     rep = gen.generate(out)
     return out, rep
@@ -64,7 +65,7 @@ def run_verus(genfile, seed=0, threads=16, use_cache=True):
     h.update(('|%s|%d|%s' % (verus_version(), seed, ' '.join(VERUS_FLAGS))).encode())
     key = h.hexdigest()[:32]
     cpath = os.path.join(CACHE, key + '.json')
-    lock = open(os.path.join(CACHE, 'lock'), 'w')
+    lock = open(os.path.join(CACHE, 'lock' + os.environ.get('VERIF_GEN_TAG', '')), 'w')
     fcntl.flock(lock, fcntl.LOCK_EX)
     try:
         if use_cache and os.path.exists(cpath):
